@@ -24,7 +24,10 @@ ALPHABET = list("=(){}<>,;\"'#/*-+.:_ \t\n\r\f\v\0") + list("0123456789") + \
                     "<", ">", "2001-01-0", "T12:00", "+1", "#", "&",
                     # empty delimited things
                     "<>", "< >", "<\n>", "()", "{}", "(,)", '""', "''",
-                    "/**/", "= <m>", "5 <>"]
+                    "/**/", "= <m>", "5 <>",
+                    # tokens that read like format templates
+                    '"{}.img"', "'{stem}'", " <{u}", '"{0.x}"', "{x} ",
+                    '"%s %d"', "/* {x} */"]
 
 _CORPUS = None
 
@@ -89,7 +92,8 @@ class C06(Property):
                        "probe.outcome-ParseError", "probe.outcome-LexerError",
                        "probe.outcome-ok-after-fault",
                        "probe.extended-vocabulary",
-                       "probe.cut-inside-multibyte-character"]
+                       "probe.cut-inside-multibyte-character",
+                       "probe.long-flat-collection"]
 
     def check(self, out, case, nontrivial=False):
         config = case["config"]
@@ -226,6 +230,18 @@ class C06(Property):
                     if d:
                         out.inc("probe.eof-inside-block")
                 do({"config": config, "text": t, "faulted": True}, k > 10)
+        if rng.random() < 0.01:
+            # a long flat Sequence or Set (a table written as one value):
+            # many items, nesting depth 1
+            nitems = rng.choice([1200, 1500, 2500])
+            op, cl = rng.choice(["()", "{}"])
+            long_text = "TABLE = " + op + ", ".join(
+                str(i) for i in range(nitems)) + cl + "\nEND\n"
+            out.inc("probe.long-flat-collection")
+            do({"config": config, "text": long_text})
+            cut = rng.randrange(len(long_text) // 2, len(long_text) - 6)
+            out.inc("fault.text-truncate")
+            do({"config": config, "text": long_text[:cut], "faulted": True})
         if "trunc" in kinds and not text.isascii():
             data = text.encode()
             # byte offsets inside multi-byte characters are the point
